@@ -236,6 +236,13 @@ def _tlc_mc(module, cfg_text, tag, workers=4, timeout=900, simulate=None, seed=N
 
 
 def _run_trace_chunk(module, path, idx, tag, results):
+    try:
+        _run_trace_chunk_inner(module, path, idx, tag, results)
+    except Exception as e:  # noqa
+        results[idx] = (99, None, 0, 0, f"exception in trace runner: {e!r}")
+
+
+def _run_trace_chunk_inner(module, path, idx, tag, results):
     meta = os.path.join(OUT, "tlc", f"{tag}_tr{idx}")
     shutil.rmtree(meta, ignore_errors=True)
     os.makedirs(meta, exist_ok=True)
@@ -299,10 +306,10 @@ def tlc_trace(module, cases_events, tag, nproc=8):
         with open(path, "w") as f:
             for ci in cis:
                 f.write(json.dumps({"ev": "Reset"}) + "\n")
-                linemap.append(ci)
-                for ev in cases_events[ci]:
+                linemap.append((ci, -1))
+                for off, ev in enumerate(cases_events[ci]):
                     f.write(json.dumps(tlcify(ev), separators=(",", ":")) + "\n")
-                    linemap.append(ci)
+                    linemap.append((ci, off))
         linemaps.append(linemap)
         paths.append(path)
         th = threading.Thread(target=_run_trace_chunk, args=(module, path, k, tag, results))
@@ -318,7 +325,8 @@ def tlc_trace(module, cases_events, tag, nproc=8):
         tr.distinct += dist
         tr.events += verdict["n"]
         for b in verdict["bad"]:
-            tr.bad.append({"case": linemaps[k][b["line"] - 1], "why": b["why"],
+            ci, off = linemaps[k][b["line"] - 1]
+            tr.bad.append({"case": ci, "event": off, "why": b["why"],
                            "detail": untlcify(b.get("detail", {})), "line": b["line"], "chunk": k})
         os.remove(paths[k])
     tr.cases = n
